@@ -218,7 +218,7 @@ static void ProcessFile(char const* FileName, LongWord Offset) {
 
         else if (InpHeader == FileHeaderDataRec) {
             Gran = InpGran;
-            if (Gran == 0) {
+            if ((Gran == 0) || (InpSegment >= SegCount)) {
                 FormatError(FileName, getmessage(Num_FormatInvRecordHeaderMsg));
             }
 
@@ -782,7 +782,7 @@ static void MeasureFile(char const* FileName, LongWord Offset) {
         ReadRecordHeader(&Header, &InpCPU, &InpSegment, &Gran, FileName, f);
 
         if (Header == FileHeaderDataRec) {
-            if (Gran == 0) {
+            if ((Gran == 0) || (InpSegment >= SegCount)) {
                 FormatError(FileName, getmessage(Num_FormatInvRecordHeaderMsg));
             }
             if (!Read4(f, &Adr)) {
